@@ -7,6 +7,7 @@ package main
 
 import (
 	"fmt"
+	"sort"
 	"strings"
 
 	"golang.org/x/tools/go/ssa"
@@ -17,6 +18,7 @@ func init() {
 }
 
 func runEngineT3(p *Prog, o *obls) {
+	t3PutOnce(p, o)
 	for _, fn := range p.Funcs {
 		var gets []*ssa.Call
 		instrsOf(fn, func(in ssa.Instruction) {
@@ -71,3 +73,134 @@ func runEngineT3(p *Prog, o *obls) {
 		}
 	}
 }
+
+// T3 (taken elsewhere) — the buffer of a dequeued item goes back once. Where the Get is in another function (the
+// accepting side) the consumer gives the buffer back per item: two Put sites for the same pure expression — direct
+// calls, or calls of a repository helper that puts (on some path) the object its parameter denotes — of which one can
+// be reached from the other without the expression's root (the dequeued item) being computed anew in between put the
+// buffer twice on that path, unless the later one is decided by the earlier call's result.
+func t3PutOnce(p *Prog, o *obls) {
+	helperPut := map[*ssa.Function][2]interface{}{}
+	for _, fn := range p.Funcs {
+		if fn.Blocks == nil || !p.InUniverse(fn) {
+			continue
+		}
+		hasGet := false
+		type site struct {
+			in     ssa.Instruction
+			key    string
+			helper bool
+		}
+		var sites []site
+		instrsOf(fn, func(in ssa.Instruction) {
+			ci, ok := in.(ssa.CallInstruction)
+			if !ok {
+				return
+			}
+			if _, isGo := ci.(*ssa.Go); isGo {
+				return
+			}
+			if _, isDefer := ci.(*ssa.Defer); isDefer {
+				return
+			}
+			cc := ci.Common()
+			if isCallTo(cc, "(*sync.Pool).Get") {
+				hasGet = true
+			}
+			if isCallTo(cc, "(*sync.Pool).Put") && len(cc.Args) == 2 {
+				sites = append(sites, site{in, p.pureKey(stripIface(cc.Args[1])), false})
+				return
+			}
+			sc := cc.StaticCallee()
+			if sc == nil || !p.InUniverse(sc) || sc == fn {
+				return
+			}
+			hp, seen := helperPut[sc]
+			if !seen {
+				i, k := putParamOf(p, sc)
+				hp = [2]interface{}{i, k}
+				helperPut[sc] = hp
+			}
+			i, k := hp[0].(int), hp[1].(string)
+			if i < 0 || i >= len(cc.Args) {
+				return
+			}
+			sites = append(sites, site{in, strings.ReplaceAll(k, p.pureKey(sc.Params[i]), p.pureKey(cc.Args[i])), true})
+		})
+		if hasGet || len(sites) < 2 {
+			continue // the same-function form is judged per Get above
+		}
+		// the instruction that computes the root of a key anew: the value whose key the put key starts from
+		rootDef := func(key string) ssa.Instruction {
+			var best ssa.Instruction
+			bestLen := 0
+			instrsOf(fn, func(in ssa.Instruction) {
+				v, ok := in.(ssa.Value)
+				if !ok {
+					return
+				}
+				switch in.(type) {
+				case *ssa.Extract, *ssa.TypeAssert, *ssa.Call, *ssa.Phi, *ssa.UnOp, *ssa.Next, *ssa.Lookup:
+				default:
+					return
+				}
+				k := p.pureKey(v)
+				if k != "" && k != key && strings.Contains(key, k) && len(k) > bestLen {
+					best, bestLen = in, len(k)
+				}
+			})
+			return best
+		}
+		var bad []string
+		n := 0
+		var pdom map[*ssa.BasicBlock]map[*ssa.BasicBlock]bool
+		for i, a := range sites {
+			for j, b := range sites {
+				if i == j || a.key != b.key {
+					continue
+				}
+				n++
+				def := rootDef(a.key)
+				if def == nil || !canReachAvoiding(a.in, b.in, def) {
+					continue
+				}
+				// decided by the earlier call's result?
+				if av, ok := a.in.(ssa.Value); ok {
+					if pdom == nil {
+						pdom = postDominators(fn)
+					}
+					decided := false
+					for cb := range transitiveControlDeps(fn, pdom, b.in.Block()) {
+						c := ifCond(cb)
+						if c == nil {
+							continue
+						}
+						// the test lies between the two on a path that takes no new item
+						br := cb.Instrs[len(cb.Instrs)-1]
+						if !canReachAvoiding(a.in, br, def) || !canReachAvoiding(br, b.in, def) {
+							continue
+						}
+						if p.backwardReaches(c, func(x ssa.Value) bool { return x == av }) {
+							decided = true
+						}
+					}
+					if decided {
+						continue
+					}
+				}
+				bad = append(bad, fmt.Sprintf("the buffer given back at %s can be given back again at %s on the same path (no new item is taken in between)", p.instrPos(a.in), p.instrPos(b.in)))
+			}
+		}
+		if n == 0 {
+			continue
+		}
+		key := funcKey(fn) + ":put-once"
+		if len(bad) > 0 {
+			sort.Strings(bad)
+			o.bad("T3", key, strings.Fields(strings.SplitN(bad[0], " given back at ", 2)[1])[0], strings.Join(dedupe(bad), "; ")+": the pool then hands the same buffer to two users, and the second copy overwrites a queued packet's payload")
+		} else {
+			o.ok("T3", key, p.Pos(fn.Pos()), fmt.Sprintf("%d pair(s) of Put sites for the same buffer, never both on one path", n/2))
+		}
+	}
+}
+
